@@ -133,7 +133,9 @@ func actionSetup(c *cli.Command) (meta actionMeta, err error) {
 	meta.cfg.SetDisabledChecks(c.StringSlice(disabledFlag))
 	enabled := c.StringSlice(enabledFlag)
 	if len(enabled) > 0 {
-		meta.cfg.Checks.Enabled = enabled
+		if err = meta.cfg.SetEnabledChecks(enabled); err != nil {
+			return meta, fmt.Errorf("invalid --%s value: %w", enabledFlag, err)
+		}
 	}
 
 	if c.Bool(offlineFlag) {
